@@ -107,6 +107,58 @@ Proof.
 Qed.
 End IteStd.
 
+(* VTreeManager::is_prime panics on constant pointers (a.vtree()); Ite::new never asks the order
+   closure about a constant: whatever two closures answer on constants, the standard triple is
+   the same, so the model's total [is_prime_ptr] loses nothing *)
+Lemma s_ite_new_order_irrelevant_on_consts (o1 o2 : sdd -> sdd -> bool) f g h :
+  (forall a b, s_is_const a = false -> s_is_const b = false -> o1 a b = o2 a b) ->
+  s_ite_new o1 f g h = s_ite_new o2 f g h.
+Proof.
+  intros Ho. unfold s_ite_new. destruct (s_intro_consts f g h) as [[f1 g1] h1].
+  destruct (s_terminal f1 g1 h1) eqn:T; [reflexivity|].
+  assert (R : s_reorder o1 f1 g1 h1 = s_reorder o2 f1 g1 h1); [|rewrite R; reflexivity].
+  assert (A : forall x y, (x = h1 /\ y = f1 /\ (s_is_true g1 = true \/ s_is_false g1 = true)) \/
+                          (x = g1 /\ y = f1 /\ (s_is_true h1 = true \/ s_is_false h1 = true \/ sdd_eqb g1 (sneg h1) = true)) ->
+                          o1 x y = o2 x y).
+  { intros x y Hxy. apply Ho.
+    - destruct Hxy as [(-> & _ & Hg)|(-> & _ & Hh)].
+      + destruct f1, g1, h1; simpl in *; try reflexivity; try discriminate; destruct Hg; discriminate.
+      + destruct f1, g1, h1; simpl in *; try reflexivity; try discriminate; destruct Hh as [Hh|[Hh|Hh]]; discriminate.
+    - assert (y = f1) by (destruct Hxy as [(_ & -> & _)|(_ & -> & _)]; reflexivity). subst y.
+      unfold s_terminal in T. destruct f1; simpl in *; try reflexivity; discriminate. }
+  unfold s_reorder.
+  destruct (s_is_true g1) eqn:E1; simpl.
+  { rewrite (A h1 f1) by auto 10. destruct (o2 h1 f1); [reflexivity|].
+    destruct (s_is_false h1) eqn:E2; simpl.
+    { rewrite (A g1 f1) by auto 10. destruct (o2 g1 f1); [reflexivity|].
+      destruct (s_is_true h1) eqn:E3; simpl; [destruct h1; discriminate|].
+      destruct (s_is_false g1) eqn:E4; simpl; [destruct g1; discriminate|].
+      destruct (sdd_eqb g1 (sneg h1)) eqn:E5; simpl; reflexivity. }
+    destruct (s_is_true h1) eqn:E3; simpl.
+    { rewrite (A g1 f1) by auto 10. destruct (o2 g1 f1); [reflexivity|].
+      destruct (s_is_false g1) eqn:E4; simpl; [destruct g1; discriminate|].
+      destruct (sdd_eqb g1 (sneg h1)) eqn:E5; simpl; reflexivity. }
+    destruct (s_is_false g1) eqn:E4; simpl; [destruct g1; discriminate|].
+    destruct (sdd_eqb g1 (sneg h1)) eqn:E5; simpl; [rewrite (A g1 f1) by auto 10|]; reflexivity. }
+  destruct (s_is_false h1) eqn:E2; simpl.
+  { rewrite (A g1 f1) by auto 10. destruct (o2 g1 f1); [reflexivity|].
+    destruct (s_is_true h1) eqn:E3; simpl; [destruct h1; discriminate|].
+    destruct (s_is_false g1) eqn:E4; simpl.
+    { rewrite (A h1 f1) by auto 10. destruct (o2 h1 f1); [reflexivity|].
+      destruct (sdd_eqb g1 (sneg h1)) eqn:E5; simpl; reflexivity. }
+    destruct (sdd_eqb g1 (sneg h1)) eqn:E5; simpl; reflexivity. }
+  destruct (s_is_true h1) eqn:E3; simpl.
+  { rewrite (A g1 f1) by auto 10. destruct (o2 g1 f1); [reflexivity|].
+    destruct (s_is_false g1) eqn:E4; simpl.
+    { rewrite (A h1 f1) by auto 10. destruct (o2 h1 f1); [reflexivity|].
+      destruct (sdd_eqb g1 (sneg h1)) eqn:E5; simpl; reflexivity. }
+    destruct (sdd_eqb g1 (sneg h1)) eqn:E5; simpl; reflexivity. }
+  destruct (s_is_false g1) eqn:E4; simpl.
+  { rewrite (A h1 f1) by auto 10. destruct (o2 h1 f1); [reflexivity|].
+    destruct (sdd_eqb g1 (sneg h1)) eqn:E5; simpl; [rewrite (A g1 f1) by auto 10|]; reflexivity. }
+  destruct (sdd_eqb g1 (sneg h1)) eqn:E5; simpl; [rewrite (A g1 f1) by auto 10|]; reflexivity.
+Qed.
+
 (* ---- specification of an operation program: Boolean functions ---- *)
 Definition bfun := asg -> bool.
 Definition fget (fs : list bfun) (i : nat) : bfun := nth i fs (fun _ => false).
